@@ -382,7 +382,9 @@ class Executor(object):
             raise Fail("a deep copy of a %s is not equal to the original" % e.kind, {}, self.facts)
         if self.guard("hash", lambda: hash(c)) != self.guard("hash", lambda: hash(e.obj)):
             raise Fail("a deep copy of a %s hashes differently" % e.kind, {}, self.facts)
-        if full_snap(c) != full_snap(e.obj):
+        # (repr is not compared between copy and original: a polyhedron's repr lists a set, whose iteration order
+        # is a representation detail that a copy need not preserve)
+        if snap(c) != snap(e.obj):
             raise Fail("a deep copy of a %s has different observable attributes" % e.kind, {}, self.facts)
         v = MOVES[a[2] % len(MOVES)]
         if X.is_zero(v):
